@@ -1,0 +1,16 @@
+//go:build verif
+
+package component_definition
+
+// VerifOrderProperties, when set, lets the verification harness in /verif choose the order
+// of the result of Meta.GetAllProperties (which otherwise follows Go's randomised map
+// iteration order). It must return a permutation of props. Only present under the build
+// tag `verif`; nil by default.
+var VerifOrderProperties func(m *Meta, props []*Property) []*Property
+
+func verifOrderProperties(m *Meta, props []*Property) []*Property {
+	if f := VerifOrderProperties; f != nil {
+		return f(m, props)
+	}
+	return props
+}
